@@ -78,6 +78,8 @@ type VC struct {
 	renderAllDecls bool
 	exitReach []Term
 	inlineBudget int
+	specCalls int
+	binderDepth int // >0 while evaluating the body of a quantifier in a clause
 	skipped  []*Oblig
 	usedContracts bool
 	Vacuity  string
@@ -255,6 +257,17 @@ func (vc *VC) blockHavoc(base string, h Term, dobj, doff, n Term) Term {
 	innerSort := Sort(es[len("(Array (_ BitVec 64) ") : len(es)-1])
 	fr := vc.declareFresh(base+"!any", innerSort)
 	return vc.blockOp(base, h, dobj, doff, n, func(i string) string { return fmt.Sprintf("(select %s %s)", fr.S, i) })
+}
+
+// freshAbove returns a heap equal to h at indices below bound and arbitrary at and above it.
+func (vc *VC) freshAbove(base string, h Term, bound Term) Term {
+	fr := vc.declareFresh(base+"!new", h.Sort)
+	name := vc.fresh(base + "!n")
+	body := fmt.Sprintf("(ite (bvult i!c %s) (select %s i!c) (select %s i!c))", bound.S, h.S, fr.S)
+	z3 := fmt.Sprintf("(define-fun %s () %s (lambda ((i!c (_ BitVec 64))) %s))", name, h.Sort, body)
+	alt := fmt.Sprintf("(declare-const %s %s)\n(assert (forall ((i!c (_ BitVec 64))) (! (= (select %s i!c) %s) :pattern ((select %s i!c)))))", name, h.Sort, name, body, name)
+	vc.items = append(vc.items, Item{kind: itCopy, text: z3, alt: alt})
+	return Term{name, h.Sort}
 }
 
 // strConst places a constant string in the immutable string memory.
